@@ -2717,8 +2717,11 @@ impl Zeroconf {
             self.resolved.insert(instance);
         }
 
-        for instance in unresolved.drain() {
-            self.add_pending_resolve(instance);
+        // A cache-only browse never sends a query, hence no follow-up queries either.
+        if !self.cache_only_queriers.contains(ty_domain) {
+            for instance in unresolved.drain() {
+                self.add_pending_resolve(instance);
+            }
         }
     }
 
@@ -3225,7 +3228,11 @@ impl Zeroconf {
                             .or_insert_with(HashSet::new)
                             .insert(instance.to_string());
                     }
-                    unresolved.insert(instance.to_string());
+                    // A cache-only browse never sends a query, hence no follow-up
+                    // queries either.
+                    if !self.cache_only_queriers.contains(ty_domain) {
+                        unresolved.insert(instance.to_string());
+                    }
                 }
             }
         }
@@ -3708,6 +3715,8 @@ impl Zeroconf {
             self.service_queriers.insert(ty.clone(), listener.clone());
             if cache_only {
                 self.cache_only_queriers.insert(ty.clone());
+                // It may have replaced a search that was sending queries.
+                self.remove_follow_up_queries(crate::service_info::split_sub_domain(&ty).0);
             } else {
                 self.cache_only_queriers.remove(&ty);
             }
@@ -3924,18 +3933,13 @@ impl Zeroconf {
                 // what was known about them - unless another search (e.g. of a
                 // subtype) still covers the type.
                 let (base_ty, _) = crate::service_info::split_sub_domain(&ty);
+                self.remove_follow_up_queries(base_ty);
                 let still_searched = self
                     .service_queriers
                     .keys()
                     .any(|other| crate::service_info::split_sub_domain(other).0 == base_ty);
                 if !still_searched {
                     let suffix = format!(".{base_ty}");
-                    self.retransmissions.retain(|rerun| {
-                        !matches!(&rerun.command,
-                            Command::Resolve(instance, _) if instance.ends_with(&suffix))
-                    });
-                    self.pending_resolves
-                        .retain(|instance| !instance.ends_with(&suffix));
                     self.resolved.retain(|instance| !instance.ends_with(&suffix));
                 }
 
@@ -3949,6 +3953,26 @@ impl Zeroconf {
                 }
             }
         }
+    }
+
+    /// Removes the pending follow-up queries for the instances of `base_ty`, unless
+    /// a search that sends queries (i.e. not a cache-only one) still covers the type.
+    fn remove_follow_up_queries(&mut self, base_ty: &str) {
+        let still_queried = self.service_queriers.keys().any(|other| {
+            crate::service_info::split_sub_domain(other).0 == base_ty
+                && !self.cache_only_queriers.contains(other)
+        });
+        if still_queried {
+            return;
+        }
+
+        let suffix = format!(".{base_ty}");
+        self.retransmissions.retain(|rerun| {
+            !matches!(&rerun.command,
+                Command::Resolve(instance, _) if instance.ends_with(&suffix))
+        });
+        self.pending_resolves
+            .retain(|instance| !instance.ends_with(&suffix));
     }
 
     fn exec_command_stop_resolve_hostname(&mut self, hostname: String) {
